@@ -310,6 +310,29 @@ def check_C16(tier):
                                          'tgold: eps >= 1e-5 of the interval length (below that, function values near a smooth extremum are indistinguishable in double precision)'], min_eval=10000)
 
 
+C15_TARGETS = [('fuzz_reader', 'fuzz/fuzz_reader.cc', 4096), ('fuzz_ga', 'fuzz/fuzz_ga.cc', 4096), ('fuzz_cdfarray', 'fuzz/fuzz_cdfarray.cc', 512), ('fuzz_catalog', 'fuzz/fuzz_catalog.cc', 2048)]
+
+
+def check_C15(tier):
+    t0 = time.time()
+    agg = Agg('C15')
+    thorough = tier == 'thorough'
+    cov = {}
+    wd = os.path.join(BUILD, 'run', 'c15scratch')
+    os.makedirs(wd, exist_ok=True)
+    os.environ['VERIF_SCRATCH'] = '/dev/shm' if os.path.isdir('/dev/shm') and os.access('/dev/shm', os.W_OK) else wd
+    # the four targets run one after the other, each with NCPU/1 jobs (libFuzzer processes are single threaded)
+    for name, src, max_len in C15_TARGETS:
+        secs = 600 if thorough else (20 if name in ('fuzz_ga', 'fuzz_reader') else 8)
+        cov.update(_fuzz(name, [src], 'C15', secs=secs, jobs=NCPU, agg=agg, max_len=max_len))
+    rule = ('four libFuzzer targets (ASan+UBSan, 16 jobs each, even jobs seeded from corpus/<target>/ = shipped valid files + encoder output, odd jobs from an empty corpus): event_reader on 1-3 files '
+            'with (start,max); dbd_gA p.d.f. loader and o.c.d.f. loader followed by 32 shots of the matching sampler; load_optimized_cdf_array; the three catalogue list parsers via the guarded hook; '
+            'oracle inside each target: std::exception or the loader\'s validity predicate (event::is_valid, finite non-negative energies with e1+e2<=esum_max, non-blank names, mode ids>0), '
+            'no sanitizer report, no hang (10 s, re-verified 3x), single allocations <= 1 GiB; evaluations = executions; distinct = corpus units (coverage-increasing inputs)')
+    return verdict(agg, tier, t0, rule, ['only crash-/leak- artifacts count; timeout-/oom- artifacts only if they reproduce 3x single-threaded', 'inputs are at most 4 KiB',
+                                         'VERIF-ORACLE-VIOLATION traps mark semantic violations (garbage loads), sanitizer reports mark memory errors'], extra_cov=cov, min_eval=10000)
+
+
 def check_C08(tier):
     """sanitizer builds (ASan+UBSan+_GLIBCXX_ASSERTIONS) of the generation drivers + structure-aware libFuzzer target"""
     t0 = time.time()
@@ -354,6 +377,11 @@ def replay(prop, path):
     if prop == 'C16':
         b = compile_bin('kernels', ['checks/kernels.cc'], 'fast')
         return subprocess.run([b, '--replay', path], env=run_env()).returncode
+    if prop in ('C15', 'C08') and path.endswith('.bin'):
+        name = os.path.basename(path).split('-')[1]
+        src = dict((n, s2) for n, s2, _ in C15_TARGETS).get(name, 'fuzz/%s.cc' % name)
+        b = compile_bin(name, [src], 'fuzz', inc=[os.path.join(ROOT, 'fuzz'), vlib.build_ref()])
+        return subprocess.run([b, path], env=run_env()).returncode
     if prop == 'C10':
         b = compile_bin('mdlcheck', ['checks/mdlcheck.cc'], 'fast')
         return subprocess.run([b, '--replay', path], env=run_env()).returncode
@@ -379,3 +407,5 @@ def setup_all():
     compile_bin('mdlcheck', ['checks/mdlcheck.cc'], 'fast')
     compile_bin('kernels', ['checks/kernels.cc'], 'fast')
     compile_bin('fuzz_shoot', ['fuzz/fuzz_shoot.cc'], 'fuzz', inc=[os.path.join(ROOT, 'fuzz'), refd])
+    for name, src, _ in C15_TARGETS:
+        compile_bin(name, [src], 'fuzz', inc=[os.path.join(ROOT, 'fuzz'), refd])
